@@ -18,7 +18,7 @@ MANIFEST = {
             'RFC 9171 reader/writer, z3. The real clock supplies "now".',
     'ref': '5 C11'}
 BOUNDS = {'quick': dict(blocks='prev-node {0,1} x hop-count {0,1,2} x age {0,1} x unknown {0,1}', crc='all blocks type 0, 1 or 2'),
-          'thorough': dict(blocks='as quick, every case three times: payload length and sequence number | the first two block numbers | received age and sequence number over all CBOR head classes', crc='as quick')}
+          'thorough': dict(blocks='as quick, each case with one (every second case with two) of: payload length and sequence number | the first two block numbers | received age and sequence number ranging over all CBOR head classes', crc='as quick')}
 ASSUMPTIONS = [
     'creation time is in the past (age is non-negative); EIDs fixed text',
     'quick: sequence number, block numbers and received age below 24, payload below 256 octets, lifetime and time in [2^32,..) (one CBOR head class each)',
@@ -59,7 +59,8 @@ def cases(tier):
     out.append(dict(prev=1, hops=0, age=1, unk=1, crc=2, warmup=1))
     if tier != 'quick':
         # at most two kinds of field range over all CBOR head classes at once
-        out = [dict(x, wide=w) for x in out for w in ('P+seq', 'nums', 'age+seq')]
+        ws = ('P+seq', 'nums', 'age+seq')
+        out = [dict(x, wide=ws[i % 3]) for i, x in enumerate(out)] + [dict(x, wide=ws[(i + 1) % 3]) for i, x in enumerate(out) if i % 2 == 0]
     return out
 
 
